@@ -1209,10 +1209,27 @@ def _placing_work(chunk):
     return dict(stats=d.stats, viol=d.viol[:20], outcomes=d.outcomes)
 
 
-def placing_enumerate(n, R, ncards=None, per=1):
+def long_cards(R=9):
+    """cards over many heights: p heights all taken the same way (o, xo, xxo or passed), one height cleared at the 1st, 2nd or 3rd attempt, then three
+    failures - up to 14 failures before the best height, which the short enumerations cannot reach"""
+    out = []
+    for p in range(0, R - 1):
+        for P in ('xxo', 'xo', 'o', '-'):
+            if p == 0 and P != 'xxo':
+                continue
+            for Q in ('o', 'xo', 'xxo'):
+                c = [P] * p + [Q] + ['xxx'] + [''] * (R - p - 2)
+                out.append(tuple(c[:R]))
+    return list(dict.fromkeys(out))
+
+
+def placing_enumerate(n, R, ncards=None, per=1, cards=None, also_ran=None):
     import itertools
-    cards = reduced_cards(R, ncards, per)
+    cards = cards or reduced_cards(R, ncards, per)
     combos = list(itertools.combinations_with_replacement(cards, n))
+    if also_ran:
+        combos = [c + (a,) for c in combos for a in also_ran]
+        n = n + 1
     nchunks = min(len(combos), common.NPROC * 8)
     res = common.pmap(_placing_work, [((n, R), combos[i::nchunks]) for i in range(nchunks)])
     tot = dict(nodes=0, leaves=0, terminal_checked=0, jumpoffs=0)
